@@ -5,15 +5,16 @@ import canmatrix.canmatrix as cm
 from lib import frames as F
 
 PID = "C16"
+EXTRA_PROPS = ("C16L",)
 RULE = ("ops: layout (frame 1..64 bytes, 0..8 in-frame signals, Intel/Motorola mixed, overlaps allowed) ; dummies (same frames, "
         "non-overlapping and overlapping) ; dlc (declared length 0..64, signals anywhere, strategy max/force) ; fit (every length 0..70 "
         "x FD flag) ; compress (frames whose signals share one byte order and do not overlap, random gaps; mixed frames as a no-op "
         "check). Exhaustive part: every gap pattern of frames <= 2 bytes built from 1..4 Motorola or Intel signals (quick: 1 byte). "
         "Non-trivial = distinct case with at least one signal and (for compress/dummies) at least one gap.")
 EXHAUSTIVE = {"quick": False, "thorough": False}
-PARTIAL = ["compress_* carry no unbounded theorem yet: compress is validated by correspondence and by the Spec (packed placement in "
-           "position order) on every generated frame; termination of the two while-loops is checked with a fuel bound in the model "
-           "and a wall-clock guard on the implementation",
+PARTIAL = ["compress: the theorems (compress_big_*, compress_little_*) are about frames of one byte order with disjoint, uniquely named "
+           "signals inside the frame; termination of the two Python while-loops is the model's fuel bound (proved sufficient) plus a "
+           "wall-clock guard on the implementation",
            "PDU-container frames (calc_dlc adds PDU sizes) are not modelled"]
 ASSUMPTIONS = ["signals lie inside the frame for layout/dummies/compress", "compress: one byte order, no overlap"]
 TRUSTED = ["itertools grouper/chain semantics as modelled by reverseGroups"]
